@@ -434,6 +434,39 @@ def run_rsa_pkcs1(ctx, P):
     ctx.cell("sigcell", "rsa/%s/%s/%s" % (k.name, c.scheme, h))
 
 
+def run_pss_key_pkcs1(ctx, P):
+    """a certificate key restricted to RSASSA-PSS must not verify PKCS#1
+    v1.5 signatures, however well-formed (made here with the private
+    exponent and the RFC 8017 encoding), under any hash or call form"""
+    k = getkey(P["key"])
+    c = Cell(ctx, "rsa", "pkcs1_on_pss_key", k.name, rsa_extra(k))
+    n = int(k.priv.n)
+    kl = (n.bit_length() + 7) // 8
+    for m in messages(ctx, 3):
+        for h in [None] + HASHES:
+            dg = H(h, m) if h else H("md5", m) + H("sha1", m)
+            T = R.digest_info(h, dg) if h else dg
+            s = rsa_sig_from_em(k, R.emsa_pkcs1(T, kl))
+            if s is None:
+                continue
+            wit = {"hash": h, "msg": m, "sig": s}
+            c.neg("pkcs1_sig_on_pss_key/verify",
+                  lambda: verify_rsa(k, s, dg, "pkcs1", h), wit)
+            if h:
+                c.neg("pkcs1_sig_on_pss_key/hashAndVerify",
+                      lambda: k.pub.hashAndVerify(ba(s), ba(m), "PKCS1", h),
+                      wit)
+                if h == "sha1":
+                    # the historical form without the NULL parameters
+                    s2 = rsa_sig_from_em(k, R.emsa_pkcs1(
+                        R.digest_info(h, dg, b""), kl))
+                    if s2 is not None:
+                        c.neg("pkcs1_sig_on_pss_key/sha1_no_null",
+                              lambda: verify_rsa(k, s2, dg, "pkcs1", h),
+                              dict(wit, sig=s2))
+    ctx.cell("sigcell", "rsa/%s/pkcs1_on_pss_key" % k.name)
+
+
 def salt_len(cls, h, embits):
     hl = R.hlen(h)
     mx = (embits + 7) // 8 - hl - 2
@@ -597,6 +630,10 @@ def dersig_variants(r, s, q, rng):
     ri, si = I(r), I(s)
     out = {
         "r_zero": seq(I(0), si), "s_zero": seq(ri, I(0)),
+        # degenerate pairs that make the verification equation trivial
+        # when a range check is missing (s = 0 -> w = 0 -> v = 1)
+        "r_one_s_zero": seq(I(1), I(0)), "r_zero_s_zero": seq(I(0), I(0)),
+        "r_one_s_one": seq(I(1), I(1)), "r_one_s_n": seq(I(1), I(q)),
         "r_eq_n": seq(I(q), si), "s_eq_n": seq(ri, I(q)),
         "r_n_plus_1": seq(I(q + 1), si), "s_n_plus_1": seq(ri, I(q + 1)),
         "r_plus_n": seq(I(r + q), si), "s_plus_n": seq(ri, I(s + q)),
@@ -1703,6 +1740,8 @@ def make_cases(ctx):
         if t not in spec[2]:
             continue
         pss_only = kn == "pss2048"
+        if pss_only:
+            yield "sig/%s/pkcs1_refused" % kn, dict(f="pss_key_pkcs1", key=kn)
         if not pss_only:
             for h in [None] + HASHES:
                 yield "sig/%s/pkcs1/%s" % (kn, h), dict(
@@ -1797,7 +1836,8 @@ def run(ctx):
     RUNNERS.update(rsa_pkcs1=run_rsa_pkcs1, rsa_pss=run_rsa_pss,
                    rsa_strip=run_rsa_strip, dersig=run_dersig,
                    eddsa=run_eddsa, ossl=run_ossl, kex_ff=run_kex_ff,
-                   kex_ec=run_kex_ec, kex_x=run_kex_x, fault=run_fault)
+                   kex_ec=run_kex_ec, kex_x=run_kex_x, fault=run_fault,
+                   pss_key_pkcs1=run_pss_key_pkcs1)
     for cid, P in ctx.cases(make_cases(ctx)):
         RUNNERS[P["f"]](ctx, P)
         ctx.count("cases/" + P["f"])
